@@ -48,7 +48,7 @@ func (Engine) Describe() simcore.Description {
 	return simcore.Description{
 		Real: []string{"full OsmosisApp: x/concentrated-liquidity (lp, swaps, swap strategies, ticks, positions, spread rewards, incentives, pool model, tick math), x/poolmanager router and message server (swaps enter through it), x/incentives no-lock gauges -> CL incentive records at epoch end, osmoutils/accum, bank, x/epochs, real BeginBlocker/EndBlocker of every module, IAVL commit per block, SDK gas metering"},
 		Stub: []string{"CometBFT (the simulator supplies header time/height and message order)", "ante/post handlers (sender taken as authenticated, no fees, no protorev backrun)"},
-		Rule: "one run = 2-5 accounts, 1-3 concentrated pools (tick spacing and spread factor drawn from the authorised sets, price regime ~1 / 1e-9 / 1e9, pools on either side of the accumulator-scaling migration threshold), <= 24 positions; steps are create / add-to / withdraw (partial, full) / transfer position, swaps in both directions exact-in and exact-out (1 unit .. draining, amounts computed from the reference curve to end exactly on / one unit around an initialised tick), spread-reward and incentive claims, no-lock gauge creation, clock advances across epoch ends, restarts, with seeded out-of-gas and forced roll-back; oracles run after every step.",
+		Rule: "one run = 2-5 accounts, 1-3 concentrated pools (tick spacing and spread factor drawn from the authorised sets, price regime ~1 / 1e-9 / 1e9, pools on either side of the accumulator-scaling migration threshold), <= 24 positions; steps are create / add-to / withdraw (partial, full) / transfer position, swaps in both directions exact-in and exact-out (1 unit .. draining, amounts computed from the reference curve to end exactly on / one unit around an initialised tick), spread-reward and incentive claims, no-lock gauge creation, clock advances across epoch ends, restarts, with seeded out-of-gas and forced roll-back; 12% of the runs are a \"round world\" (price exactly 1, spacing 100, mostly no spread factor, boundaries on ticks with short-decimal square-root prices 0.5..2, round token amounts => whole-number liquidity) in which swaps use up their input to the last unit exactly on a tick and liquidities coincide exactly; oracles run after every step.",
 		Assumptions: []string{
 			"C03 bound: out_impl <= ideal + eps and ideal - out_impl <= B (exact-in), in_impl >= ideal - eps and in_impl - ideal <= B (exact-out), with B = 2 + 2*(buckets visited) + (buckets+1)*ceil(best marginal rate, output per input unit: every bucket rounds its input up to a whole unit) + ceil(maxLiquidity * 4e-36 * buckets * max(1, 1/sqrtPrice^2)) + ceil((in+out) * 4e-18 * (buckets+1)) + for exact-out ceil(endPrice * 4e-18 * (buckets+1)) units (the unfilled output is an 18-digit decimal worth the marginal end price) (one unit per integer rounding of the result, 18-digit rounding of each bucket's amounts, and the 36-digit sqrt-price rounding times liquidity), eps = 1e-9 + 2e-18*(buckets+1)*ideal (the spread factor quotient f/(1-f) is an 18-digit decimal); the observed worst ratio is reported",
 			"C01 dust bound after everybody exits: pool-account leftover per denom <= 2*(successful position creations + withdrawals + 2*adds + swaps) + ticks crossed + 2 units + sum over those operations of ceil(liquidity * 4e-36 * max(1, 1/sqrtPrice^2)) (36-digit sqrt-price representation)",
